@@ -641,6 +641,28 @@ func vC09Locations(fs *FileStore, keys []string) (map[string]int, error) {
 	return out, nil
 }
 
+// vC09MaxMergeBlocks: sort.Stable is a plain insertion sort up to 20 elements (see the known
+// finding compaction-misorders-more-than-20-blocks-of-a-key, TestVerifC09KFMergeOrder).
+const vC09MaxMergeBlocks = 20
+
+// vC09GroupBlocks counts the index entries per key over the given files.
+func vC09GroupBlocks(fs *FileStore, paths []string, keys []string) (map[string]int, error) {
+	out := map[string]int{}
+	var es []IndexEntry
+	for _, p := range paths {
+		r := fs.TSMReader(p)
+		if r == nil {
+			return nil, fmt.Errorf("no reader for %s", p)
+		}
+		for _, k := range keys {
+			es = r.ReadEntries([]byte(k), &es)
+			out[k] += len(es)
+		}
+		r.Unref()
+	}
+	return out, nil
+}
+
 // vC09CursorContent reads all keys through the key cursor; a timestamp returned twice is an error.
 func vC09CursorContent(fs *FileStore, keys []string, types []byte, asc bool, skip map[string]bool) (vC09Content, error) {
 	out := vC09Content{}
